@@ -362,6 +362,8 @@ def cases(tier, seed):
     for fam, p in HIST_KINDS:
         for k in range(reps[fam]):
             out.append((fam, dict(p, k=k), COST.get(fam, 1.0)))
+    for k in range(12 if tier == "quick" else 400):
+        out.append(("exact-lattice", {"dim": 1 + k % 3, "kind": "uniform" if k % 2 else "plain", "k": k}, 1.0))
     nsel = 2 if tier == "quick" else 100
     for tgt in SEL_TARGETS:
         for k in range(nsel):
@@ -646,8 +648,25 @@ def do_set_points(ctx, g):
         elif np.isfinite(hi):
             new = hi - np.abs(new - hi)
     new = np.ascontiguousarray(new, dtype=float).reshape(old.shape)
+    inplace = g.points is g.points and rng.random() < 0.35  # getter hands out the stored array (not AtomGrid-like copies)
     with ctx.guard("setter-accepts-same-shape", subject_of(g) + ".points"):
-        g.points = new
+        if inplace:
+            # reassignment through an augmented assignment / write-and-assign-back: the setter receives the SAME array
+            # object it already holds, with new contents (g.points += shift; a = g.points; a[:] = ...; g.points = a)
+            delta = new - np.asarray(old, dtype=float)
+            new = np.asarray(old, dtype=float) + delta
+            if np.asarray(g.points).dtype.kind != "f":
+                inplace = False
+        if inplace and rng.random() < 0.5:
+            g.points += delta
+            ctx.count("op:set-points-augmented-assignment")
+        elif inplace:
+            a = g.points
+            a[...] = new
+            g.points = a
+            ctx.count("op:set-points-same-object-assigned-back")
+        else:
+            g.points = new
         mark(g, "points-reassign")
         ctx.count("op:set-points")
         ctx.check("setter-accepts-same-shape", subject_of(g) + ".points", bool(np.array_equal(np.asarray(g.points), new)), sig="points-not-taken")
@@ -762,9 +781,51 @@ def run_history(ctx, g, nops):
 
 
 # ------------------------------------------------------------------ cases
+def run_exact_lattice(ctx, params):
+    """Points with integer coordinates, centre on a lattice point, integer radius: squared distances are exact integers,
+    so membership 'distance <= radius' is decided exactly - points ON the sphere must be included (no tie band)."""
+    from grid.basegrid import Grid
+    from grid.cubic import UniformGrid
+
+    rng = ctx.rng
+    dim = int(params["dim"])
+    shape = [int(v) for v in rng.integers(3, 8, dim)]
+    if dim == 1:
+        shape = [int(rng.integers(20, 60))]
+    kind = params["kind"]
+    if kind == "uniform" and dim in (2, 3):
+        g = UniformGrid(np.zeros(dim), np.eye(dim), np.array(shape), weight="Rectangle")
+        subj = f"UniformGrid[{dim}D,integer-lattice]"
+    else:
+        axes = [np.arange(n, dtype=float) for n in shape]
+        pts = np.stack(np.meshgrid(*axes, indexing="ij"), axis=-1).reshape(-1, dim)
+        pts = pts[rng.permutation(len(pts))]
+        g = Grid(pts[:, 0].copy() if dim == 1 and rng.random() < 0.5 else pts, rng.uniform(0.5, 2.0, len(pts)))
+        subj = f"Grid[{dim}D,integer-lattice]"
+    P = np.asarray(g.points, dtype=float).reshape(g.size, -1)
+    ipts = np.rint(P).astype(np.int64)
+    if not np.array_equal(ipts, P):
+        raise core.MonitorError("lattice points are not integers")
+    for _ in range(6):
+        c = ipts[int(rng.integers(0, g.size))]
+        R = int(rng.integers(0, max(shape) + 1))
+        d2 = np.sum((ipts - c) ** 2, axis=1)
+        want = np.sort(np.where(d2 <= R * R)[0])
+        on = int(np.sum(d2 == R * R))
+        center = float(c[0]) if np.asarray(g.points).ndim == 1 else c.astype(float)
+        with ctx.guard("ball-membership-exact-ties", subj):
+            lg = g.get_localgrid(center, float(R) if rng.random() < 0.5 else R)
+            got = np.sort(np.asarray(lg.indices))
+            ok = np.array_equal(got, want)
+            ctx.check("ball-membership-exact-ties", subj, ok, sig="missing-points-on-the-sphere" if (not ok and set(got) <= set(want) and np.all(d2[np.setdiff1d(want, got)] == R * R)) else "wrong-index-set", detail={"radius": R, "centre": c.tolist(), "n_expected": int(len(want)), "n_got": int(len(got)), "n_on_sphere": on, "N": int(g.size)})
+            ctx.count("exact-lattice:queries-with-points-on-sphere" if on else "exact-lattice:queries")
+
+
 def run_case(ctx, family, params):
     if family == "witness":
         return run_witness(ctx, params["name"])
+    if family == "exact-lattice":
+        return run_exact_lattice(ctx, params)
     if family == "selection":
         return run_selection(ctx, params)
     try:
